@@ -133,8 +133,17 @@ def run(ck):
             for order in orders:
                 ops = ["reset"]
                 inter = []   # (op index, lookup kind, name, libraries requested so far)
+                # a third of the sessions are one batch (no query between the requests) that mixes the two request interfaces:
+                # plain files and module definitions with a reserved index range, as compiled-in modules register themselves
+                batch = rng.random() < 0.34
                 for pos, j in enumerate(order):
-                    ops.append("reqfile %s" % paths[j])
+                    if batch and rng.random() < 0.6:
+                        total = sum(len(libs[j][kd]) for kd in dbgen.KINDS)
+                        ops.append("reqmod 0 ~ %s 1 %d 0 %s 0" % (dbgen.hexs(b"HM%d" % j), 1 + total, paths[j]))
+                    else:
+                        ops.append("reqfile %s" % paths[j])
+                    if batch and pos + 1 < len(order):
+                        continue
                     # queries between requests: lookups of names from all libraries (loaded or not yet), enumerations
                     for nm in rng.sample(names, min(len(names), 6)):
                         lk = rng.choice(LKS)
@@ -148,7 +157,8 @@ def run(ck):
                 diffs = iglib.diff_streams(ops, impl, model)
                 if st != "ok":
                     diffs.append((len(impl), "<process>", st, "ok"))
-                ck.corr_case("load-orders", {"set": n, "k": k, "order": list(order)}, not diffs, detail=repr(diffs[:3]), feature="k=%d" % k)
+                ck.corr_case("load-orders", {"set": n, "k": k, "order": list(order)}, not diffs, detail=repr(diffs[:3]),
+                             feature=["k=%d" % k] + (["mixed-batch"] if batch and any(o.startswith("reqmod") for o in ops) and any(o.startswith("reqfile") for o in ops) else []))
                 ck.search_case("merged-equals-union")
                 files = dict((p.name, p.read_bytes()) for p in paths)
                 files["ops.txt"] = "\n".join(ops) + "\n"
